@@ -239,9 +239,9 @@
   "ext2fs_rb_next.1": 2,
   "ext2fs_rb_prev.0": 2,
   "ext2fs_rb_prev.1": 2,
-  "ext2fs_rb_erase.0": 2,
-  "__rb_erase_color.0": 2,
-  "ext2fs_rb_insert_color.0": 2,
+  "ext2fs_rb_erase.0": 1,
+  "__rb_erase_color.0": 1,
+  "ext2fs_rb_insert_color.0": 1,
   "rb_insert_extent.0": 1,
   "rb_insert_extent.1": 1
  }
@@ -287,9 +287,9 @@
   "ext2fs_rb_next.1": 3,
   "ext2fs_rb_prev.0": 3,
   "ext2fs_rb_prev.1": 3,
-  "ext2fs_rb_erase.0": 3,
-  "__rb_erase_color.0": 3,
-  "ext2fs_rb_insert_color.0": 3,
+  "ext2fs_rb_erase.0": 1,
+  "__rb_erase_color.0": 1,
+  "ext2fs_rb_insert_color.0": 1,
   "rb_insert_extent.0": 2,
   "rb_insert_extent.1": 2
  }
@@ -335,9 +335,9 @@
   "ext2fs_rb_next.1": 3,
   "ext2fs_rb_prev.0": 3,
   "ext2fs_rb_prev.1": 3,
-  "ext2fs_rb_erase.0": 3,
-  "__rb_erase_color.0": 3,
-  "ext2fs_rb_insert_color.0": 3,
+  "ext2fs_rb_erase.0": 2,
+  "__rb_erase_color.0": 2,
+  "ext2fs_rb_insert_color.0": 2,
   "rb_insert_extent.0": 3,
   "rb_insert_extent.1": 3
  }
@@ -383,9 +383,9 @@
   "ext2fs_rb_next.1": 4,
   "ext2fs_rb_prev.0": 4,
   "ext2fs_rb_prev.1": 4,
-  "ext2fs_rb_erase.0": 4,
-  "__rb_erase_color.0": 4,
-  "ext2fs_rb_insert_color.0": 4,
+  "ext2fs_rb_erase.0": 2,
+  "__rb_erase_color.0": 2,
+  "ext2fs_rb_insert_color.0": 2,
   "rb_insert_extent.0": 3,
   "rb_insert_extent.1": 4
  }
@@ -431,9 +431,9 @@
   "ext2fs_rb_next.1": 4,
   "ext2fs_rb_prev.0": 4,
   "ext2fs_rb_prev.1": 4,
-  "ext2fs_rb_erase.0": 4,
-  "__rb_erase_color.0": 4,
-  "ext2fs_rb_insert_color.0": 4,
+  "ext2fs_rb_erase.0": 3,
+  "__rb_erase_color.0": 3,
+  "ext2fs_rb_insert_color.0": 2,
   "rb_insert_extent.0": 4,
   "rb_insert_extent.1": 5
  }
@@ -478,9 +478,9 @@
   "ext2fs_rb_next.1": 2,
   "ext2fs_rb_prev.0": 2,
   "ext2fs_rb_prev.1": 2,
-  "ext2fs_rb_erase.0": 2,
-  "__rb_erase_color.0": 2,
-  "ext2fs_rb_insert_color.0": 2,
+  "ext2fs_rb_erase.0": 1,
+  "__rb_erase_color.0": 1,
+  "ext2fs_rb_insert_color.0": 1,
   "rb_insert_extent.0": 1,
   "rb_insert_extent.1": 1,
   "rb_remove_extent.0": 2,
@@ -527,9 +527,9 @@
   "ext2fs_rb_next.1": 3,
   "ext2fs_rb_prev.0": 3,
   "ext2fs_rb_prev.1": 3,
-  "ext2fs_rb_erase.0": 3,
-  "__rb_erase_color.0": 3,
-  "ext2fs_rb_insert_color.0": 3,
+  "ext2fs_rb_erase.0": 1,
+  "__rb_erase_color.0": 1,
+  "ext2fs_rb_insert_color.0": 1,
   "rb_insert_extent.0": 2,
   "rb_insert_extent.1": 2,
   "rb_remove_extent.0": 3,
@@ -576,9 +576,9 @@
   "ext2fs_rb_next.1": 3,
   "ext2fs_rb_prev.0": 3,
   "ext2fs_rb_prev.1": 3,
-  "ext2fs_rb_erase.0": 3,
-  "__rb_erase_color.0": 3,
-  "ext2fs_rb_insert_color.0": 3,
+  "ext2fs_rb_erase.0": 2,
+  "__rb_erase_color.0": 2,
+  "ext2fs_rb_insert_color.0": 2,
   "rb_insert_extent.0": 3,
   "rb_insert_extent.1": 3,
   "rb_remove_extent.0": 4,
@@ -625,9 +625,9 @@
   "ext2fs_rb_next.1": 4,
   "ext2fs_rb_prev.0": 4,
   "ext2fs_rb_prev.1": 4,
-  "ext2fs_rb_erase.0": 4,
-  "__rb_erase_color.0": 4,
-  "ext2fs_rb_insert_color.0": 4,
+  "ext2fs_rb_erase.0": 2,
+  "__rb_erase_color.0": 2,
+  "ext2fs_rb_insert_color.0": 2,
   "rb_insert_extent.0": 3,
   "rb_insert_extent.1": 4,
   "rb_remove_extent.0": 4,
@@ -674,9 +674,9 @@
   "ext2fs_rb_next.1": 4,
   "ext2fs_rb_prev.0": 4,
   "ext2fs_rb_prev.1": 4,
-  "ext2fs_rb_erase.0": 4,
-  "__rb_erase_color.0": 4,
-  "ext2fs_rb_insert_color.0": 4,
+  "ext2fs_rb_erase.0": 3,
+  "__rb_erase_color.0": 3,
+  "ext2fs_rb_insert_color.0": 2,
   "rb_insert_extent.0": 4,
   "rb_insert_extent.1": 5,
   "rb_remove_extent.0": 5,
@@ -1288,9 +1288,9 @@
   "ext2fs_rb_prev.0": 2,
   "ext2fs_rb_prev.1": 2,
   "ext2fs_rb_last.0": 2,
-  "ext2fs_rb_erase.0": 2,
-  "__rb_erase_color.0": 2,
-  "ext2fs_rb_insert_color.0": 2,
+  "ext2fs_rb_erase.0": 1,
+  "__rb_erase_color.0": 1,
+  "ext2fs_rb_insert_color.0": 1,
   "rb_insert_extent.0": 1,
   "rb_insert_extent.1": 1,
   "rb_truncate.0": 3
@@ -1336,9 +1336,9 @@
   "ext2fs_rb_prev.0": 3,
   "ext2fs_rb_prev.1": 3,
   "ext2fs_rb_last.0": 3,
-  "ext2fs_rb_erase.0": 3,
-  "__rb_erase_color.0": 3,
-  "ext2fs_rb_insert_color.0": 3,
+  "ext2fs_rb_erase.0": 1,
+  "__rb_erase_color.0": 1,
+  "ext2fs_rb_insert_color.0": 1,
   "rb_insert_extent.0": 2,
   "rb_insert_extent.1": 2,
   "rb_truncate.0": 4
@@ -1384,9 +1384,9 @@
   "ext2fs_rb_prev.0": 3,
   "ext2fs_rb_prev.1": 3,
   "ext2fs_rb_last.0": 3,
-  "ext2fs_rb_erase.0": 3,
-  "__rb_erase_color.0": 3,
-  "ext2fs_rb_insert_color.0": 3,
+  "ext2fs_rb_erase.0": 2,
+  "__rb_erase_color.0": 2,
+  "ext2fs_rb_insert_color.0": 2,
   "rb_insert_extent.0": 3,
   "rb_insert_extent.1": 3,
   "rb_truncate.0": 5
@@ -1432,9 +1432,9 @@
   "ext2fs_rb_prev.0": 4,
   "ext2fs_rb_prev.1": 4,
   "ext2fs_rb_last.0": 4,
-  "ext2fs_rb_erase.0": 4,
-  "__rb_erase_color.0": 4,
-  "ext2fs_rb_insert_color.0": 4,
+  "ext2fs_rb_erase.0": 2,
+  "__rb_erase_color.0": 2,
+  "ext2fs_rb_insert_color.0": 2,
   "rb_insert_extent.0": 3,
   "rb_insert_extent.1": 4,
   "rb_truncate.0": 6
@@ -1480,9 +1480,9 @@
   "ext2fs_rb_prev.0": 4,
   "ext2fs_rb_prev.1": 4,
   "ext2fs_rb_last.0": 4,
-  "ext2fs_rb_erase.0": 4,
-  "__rb_erase_color.0": 4,
-  "ext2fs_rb_insert_color.0": 4,
+  "ext2fs_rb_erase.0": 3,
+  "__rb_erase_color.0": 3,
+  "ext2fs_rb_insert_color.0": 2,
   "rb_insert_extent.0": 4,
   "rb_insert_extent.1": 5,
   "rb_truncate.0": 7
@@ -1634,6 +1634,805 @@
  "unwindset": {
   "ext2fs_rb_erase.0": 4,
   "__rb_erase_color.0": 4
+ }
+}
+*/
+/* VERIF-UNIT
+{
+ "name": "rb_test_bit_s2",
+ "props": [
+  "C16"
+ ],
+ "level": "B(2)",
+ "tier": "wip",
+ "harness": "h_rb_test",
+ "defines": [
+  "EXT2_CUSTOM_MEMORY_ROUTINES",
+  "RB_N=2",
+  "RB_NSYM",
+  "RB_NEW=0"
+ ],
+ "unwind": 9,
+ "unwind_reason": "x",
+ "sources": [
+  "lib/ext2fs/rbtree.c"
+ ],
+ "functions": [
+  "lib/ext2fs/blkmap64_rb.c:rb_test_bmap",
+  "lib/ext2fs/blkmap64_rb.c:rb_test_bit"
+ ],
+ "assumes": [
+  "x"
+ ],
+ "backend": "minisat",
+ "native": true,
+ "cbmc_flags": [
+  "--object-bits",
+  "10"
+ ],
+ "unwindset": {
+  "ext2fs_rb_next.0": 3,
+  "ext2fs_rb_next.1": 3,
+  "rb_test_bit.0": 3
+ }
+}
+*/
+/* VERIF-UNIT
+{
+ "name": "rb_test_bit_s3",
+ "props": [
+  "C16"
+ ],
+ "level": "B(3)",
+ "tier": "wip",
+ "harness": "h_rb_test",
+ "defines": [
+  "EXT2_CUSTOM_MEMORY_ROUTINES",
+  "RB_N=3",
+  "RB_NSYM",
+  "RB_NEW=0"
+ ],
+ "unwind": 9,
+ "unwind_reason": "x",
+ "sources": [
+  "lib/ext2fs/rbtree.c"
+ ],
+ "functions": [
+  "lib/ext2fs/blkmap64_rb.c:rb_test_bmap",
+  "lib/ext2fs/blkmap64_rb.c:rb_test_bit"
+ ],
+ "assumes": [
+  "x"
+ ],
+ "backend": "minisat",
+ "native": true,
+ "cbmc_flags": [
+  "--object-bits",
+  "10"
+ ],
+ "unwindset": {
+  "ext2fs_rb_next.0": 3,
+  "ext2fs_rb_next.1": 3,
+  "rb_test_bit.0": 3
+ }
+}
+*/
+/* VERIF-UNIT
+{
+ "name": "rb_test_bit_s4",
+ "props": [
+  "C16"
+ ],
+ "level": "B(4)",
+ "tier": "wip",
+ "harness": "h_rb_test",
+ "defines": [
+  "EXT2_CUSTOM_MEMORY_ROUTINES",
+  "RB_N=4",
+  "RB_NSYM",
+  "RB_NEW=0"
+ ],
+ "unwind": 9,
+ "unwind_reason": "x",
+ "sources": [
+  "lib/ext2fs/rbtree.c"
+ ],
+ "functions": [
+  "lib/ext2fs/blkmap64_rb.c:rb_test_bmap",
+  "lib/ext2fs/blkmap64_rb.c:rb_test_bit"
+ ],
+ "assumes": [
+  "x"
+ ],
+ "backend": "minisat",
+ "native": true,
+ "cbmc_flags": [
+  "--object-bits",
+  "10"
+ ],
+ "unwindset": {
+  "ext2fs_rb_next.0": 4,
+  "ext2fs_rb_next.1": 4,
+  "rb_test_bit.0": 4
+ }
+}
+*/
+/* VERIF-UNIT
+{
+ "name": "rb_test_clear_extent_s2",
+ "props": [
+  "C16"
+ ],
+ "level": "B(2)",
+ "tier": "wip",
+ "harness": "h_rb_test_clear",
+ "defines": [
+  "EXT2_CUSTOM_MEMORY_ROUTINES",
+  "RB_N=2",
+  "RB_NSYM",
+  "RB_NEW=0"
+ ],
+ "unwind": 9,
+ "unwind_reason": "x",
+ "sources": [
+  "lib/ext2fs/rbtree.c"
+ ],
+ "functions": [
+  "lib/ext2fs/blkmap64_rb.c:rb_test_clear_bmap_extent"
+ ],
+ "assumes": [
+  "x"
+ ],
+ "backend": "minisat",
+ "native": true,
+ "cbmc_flags": [
+  "--object-bits",
+  "10"
+ ],
+ "unwindset": {
+  "ext2fs_rb_next.0": 3,
+  "ext2fs_rb_next.1": 3,
+  "rb_test_clear_bmap_extent.0": 3,
+  "rb_test_clear_bmap_extent.1": 3
+ }
+}
+*/
+/* VERIF-UNIT
+{
+ "name": "rb_test_clear_extent_s3",
+ "props": [
+  "C16"
+ ],
+ "level": "B(3)",
+ "tier": "wip",
+ "harness": "h_rb_test_clear",
+ "defines": [
+  "EXT2_CUSTOM_MEMORY_ROUTINES",
+  "RB_N=3",
+  "RB_NSYM",
+  "RB_NEW=0"
+ ],
+ "unwind": 9,
+ "unwind_reason": "x",
+ "sources": [
+  "lib/ext2fs/rbtree.c"
+ ],
+ "functions": [
+  "lib/ext2fs/blkmap64_rb.c:rb_test_clear_bmap_extent"
+ ],
+ "assumes": [
+  "x"
+ ],
+ "backend": "minisat",
+ "native": true,
+ "cbmc_flags": [
+  "--object-bits",
+  "10"
+ ],
+ "unwindset": {
+  "ext2fs_rb_next.0": 3,
+  "ext2fs_rb_next.1": 3,
+  "rb_test_clear_bmap_extent.0": 3,
+  "rb_test_clear_bmap_extent.1": 4
+ }
+}
+*/
+/* VERIF-UNIT
+{
+ "name": "rb_test_clear_extent_s4",
+ "props": [
+  "C16"
+ ],
+ "level": "B(4)",
+ "tier": "wip",
+ "harness": "h_rb_test_clear",
+ "defines": [
+  "EXT2_CUSTOM_MEMORY_ROUTINES",
+  "RB_N=4",
+  "RB_NSYM",
+  "RB_NEW=0"
+ ],
+ "unwind": 9,
+ "unwind_reason": "x",
+ "sources": [
+  "lib/ext2fs/rbtree.c"
+ ],
+ "functions": [
+  "lib/ext2fs/blkmap64_rb.c:rb_test_clear_bmap_extent"
+ ],
+ "assumes": [
+  "x"
+ ],
+ "backend": "minisat",
+ "native": true,
+ "cbmc_flags": [
+  "--object-bits",
+  "10"
+ ],
+ "unwindset": {
+  "ext2fs_rb_next.0": 4,
+  "ext2fs_rb_next.1": 4,
+  "rb_test_clear_bmap_extent.0": 4,
+  "rb_test_clear_bmap_extent.1": 5
+ }
+}
+*/
+/* VERIF-UNIT
+{
+ "name": "rb_find_first_zero_s2",
+ "props": [
+  "C16"
+ ],
+ "level": "B(2)",
+ "tier": "wip",
+ "harness": "h_rb_ffz",
+ "defines": [
+  "EXT2_CUSTOM_MEMORY_ROUTINES",
+  "RB_N=2",
+  "RB_NSYM",
+  "RB_NEW=0"
+ ],
+ "unwind": 9,
+ "unwind_reason": "x",
+ "sources": [
+  "lib/ext2fs/rbtree.c"
+ ],
+ "functions": [
+  "lib/ext2fs/blkmap64_rb.c:rb_find_first_zero"
+ ],
+ "assumes": [
+  "x"
+ ],
+ "backend": "minisat",
+ "native": true,
+ "cbmc_flags": [
+  "--object-bits",
+  "10"
+ ],
+ "unwindset": {
+  "rb_find_first_zero.0": 3
+ }
+}
+*/
+/* VERIF-UNIT
+{
+ "name": "rb_find_first_zero_s3",
+ "props": [
+  "C16"
+ ],
+ "level": "B(3)",
+ "tier": "wip",
+ "harness": "h_rb_ffz",
+ "defines": [
+  "EXT2_CUSTOM_MEMORY_ROUTINES",
+  "RB_N=3",
+  "RB_NSYM",
+  "RB_NEW=0"
+ ],
+ "unwind": 9,
+ "unwind_reason": "x",
+ "sources": [
+  "lib/ext2fs/rbtree.c"
+ ],
+ "functions": [
+  "lib/ext2fs/blkmap64_rb.c:rb_find_first_zero"
+ ],
+ "assumes": [
+  "x"
+ ],
+ "backend": "minisat",
+ "native": true,
+ "cbmc_flags": [
+  "--object-bits",
+  "10"
+ ],
+ "unwindset": {
+  "rb_find_first_zero.0": 3
+ }
+}
+*/
+/* VERIF-UNIT
+{
+ "name": "rb_find_first_zero_s4",
+ "props": [
+  "C16"
+ ],
+ "level": "B(4)",
+ "tier": "wip",
+ "harness": "h_rb_ffz",
+ "defines": [
+  "EXT2_CUSTOM_MEMORY_ROUTINES",
+  "RB_N=4",
+  "RB_NSYM",
+  "RB_NEW=0"
+ ],
+ "unwind": 9,
+ "unwind_reason": "x",
+ "sources": [
+  "lib/ext2fs/rbtree.c"
+ ],
+ "functions": [
+  "lib/ext2fs/blkmap64_rb.c:rb_find_first_zero"
+ ],
+ "assumes": [
+  "x"
+ ],
+ "backend": "minisat",
+ "native": true,
+ "cbmc_flags": [
+  "--object-bits",
+  "10"
+ ],
+ "unwindset": {
+  "rb_find_first_zero.0": 4
+ }
+}
+*/
+/* VERIF-UNIT
+{
+ "name": "rb_find_first_set_s2",
+ "props": [
+  "C16"
+ ],
+ "level": "B(2)",
+ "tier": "wip",
+ "harness": "h_rb_ffs",
+ "defines": [
+  "EXT2_CUSTOM_MEMORY_ROUTINES",
+  "RB_N=2",
+  "RB_NSYM",
+  "RB_NEW=0"
+ ],
+ "unwind": 9,
+ "unwind_reason": "x",
+ "sources": [
+  "lib/ext2fs/rbtree.c"
+ ],
+ "functions": [
+  "lib/ext2fs/blkmap64_rb.c:rb_find_first_set"
+ ],
+ "assumes": [
+  "x"
+ ],
+ "backend": "minisat",
+ "native": true,
+ "cbmc_flags": [
+  "--object-bits",
+  "10"
+ ],
+ "unwindset": {
+  "ext2fs_rb_next.0": 3,
+  "ext2fs_rb_next.1": 3,
+  "rb_find_first_set.0": 3
+ }
+}
+*/
+/* VERIF-UNIT
+{
+ "name": "rb_find_first_set_s3",
+ "props": [
+  "C16"
+ ],
+ "level": "B(3)",
+ "tier": "wip",
+ "harness": "h_rb_ffs",
+ "defines": [
+  "EXT2_CUSTOM_MEMORY_ROUTINES",
+  "RB_N=3",
+  "RB_NSYM",
+  "RB_NEW=0"
+ ],
+ "unwind": 9,
+ "unwind_reason": "x",
+ "sources": [
+  "lib/ext2fs/rbtree.c"
+ ],
+ "functions": [
+  "lib/ext2fs/blkmap64_rb.c:rb_find_first_set"
+ ],
+ "assumes": [
+  "x"
+ ],
+ "backend": "minisat",
+ "native": true,
+ "cbmc_flags": [
+  "--object-bits",
+  "10"
+ ],
+ "unwindset": {
+  "ext2fs_rb_next.0": 3,
+  "ext2fs_rb_next.1": 3,
+  "rb_find_first_set.0": 3
+ }
+}
+*/
+/* VERIF-UNIT
+{
+ "name": "rb_find_first_set_s4",
+ "props": [
+  "C16"
+ ],
+ "level": "B(4)",
+ "tier": "wip",
+ "harness": "h_rb_ffs",
+ "defines": [
+  "EXT2_CUSTOM_MEMORY_ROUTINES",
+  "RB_N=4",
+  "RB_NSYM",
+  "RB_NEW=0"
+ ],
+ "unwind": 9,
+ "unwind_reason": "x",
+ "sources": [
+  "lib/ext2fs/rbtree.c"
+ ],
+ "functions": [
+  "lib/ext2fs/blkmap64_rb.c:rb_find_first_set"
+ ],
+ "assumes": [
+  "x"
+ ],
+ "backend": "minisat",
+ "native": true,
+ "cbmc_flags": [
+  "--object-bits",
+  "10"
+ ],
+ "unwindset": {
+  "ext2fs_rb_next.0": 4,
+  "ext2fs_rb_next.1": 4,
+  "rb_find_first_set.0": 4
+ }
+}
+*/
+/* VERIF-UNIT
+{
+ "name": "rb_get_bmap_range_s2",
+ "props": [
+  "C16"
+ ],
+ "level": "B(2)",
+ "tier": "wip",
+ "harness": "h_rb_get_range",
+ "defines": [
+  "EXT2_CUSTOM_MEMORY_ROUTINES",
+  "RB_N=2",
+  "RB_NSYM",
+  "RB_NEW=0"
+ ],
+ "unwind": 9,
+ "unwind_reason": "x",
+ "sources": [
+  "lib/ext2fs/rbtree.c",
+  "lib/ext2fs/bitops.c"
+ ],
+ "functions": [
+  "lib/ext2fs/blkmap64_rb.c:rb_get_bmap_range"
+ ],
+ "assumes": [
+  "x"
+ ],
+ "backend": "minisat",
+ "native": true,
+ "cbmc_flags": [
+  "--object-bits",
+  "10"
+ ],
+ "unwindset": {
+  "ext2fs_rb_next.0": 3,
+  "ext2fs_rb_next.1": 3,
+  "rb_get_bmap_range.0": 3,
+  "rb_get_bmap_range.1": 16,
+  "rb_get_bmap_range.2": 4
+ }
+}
+*/
+/* VERIF-UNIT
+{
+ "name": "rb_get_bmap_range_s3",
+ "props": [
+  "C16"
+ ],
+ "level": "B(3)",
+ "tier": "wip",
+ "harness": "h_rb_get_range",
+ "defines": [
+  "EXT2_CUSTOM_MEMORY_ROUTINES",
+  "RB_N=3",
+  "RB_NSYM",
+  "RB_NEW=0"
+ ],
+ "unwind": 9,
+ "unwind_reason": "x",
+ "sources": [
+  "lib/ext2fs/rbtree.c",
+  "lib/ext2fs/bitops.c"
+ ],
+ "functions": [
+  "lib/ext2fs/blkmap64_rb.c:rb_get_bmap_range"
+ ],
+ "assumes": [
+  "x"
+ ],
+ "backend": "minisat",
+ "native": true,
+ "cbmc_flags": [
+  "--object-bits",
+  "10"
+ ],
+ "unwindset": {
+  "ext2fs_rb_next.0": 3,
+  "ext2fs_rb_next.1": 3,
+  "rb_get_bmap_range.0": 3,
+  "rb_get_bmap_range.1": 16,
+  "rb_get_bmap_range.2": 5
+ }
+}
+*/
+/* VERIF-UNIT
+{
+ "name": "rb_get_bmap_range_s4",
+ "props": [
+  "C16"
+ ],
+ "level": "B(4)",
+ "tier": "wip",
+ "harness": "h_rb_get_range",
+ "defines": [
+  "EXT2_CUSTOM_MEMORY_ROUTINES",
+  "RB_N=4",
+  "RB_NSYM",
+  "RB_NEW=0"
+ ],
+ "unwind": 9,
+ "unwind_reason": "x",
+ "sources": [
+  "lib/ext2fs/rbtree.c",
+  "lib/ext2fs/bitops.c"
+ ],
+ "functions": [
+  "lib/ext2fs/blkmap64_rb.c:rb_get_bmap_range"
+ ],
+ "assumes": [
+  "x"
+ ],
+ "backend": "minisat",
+ "native": true,
+ "cbmc_flags": [
+  "--object-bits",
+  "10"
+ ],
+ "unwindset": {
+  "ext2fs_rb_next.0": 4,
+  "ext2fs_rb_next.1": 4,
+  "rb_get_bmap_range.0": 4,
+  "rb_get_bmap_range.1": 16,
+  "rb_get_bmap_range.2": 6
+ }
+}
+*/
+/* VERIF-UNIT
+{
+ "name": "rb_get_bmap_range_n0",
+ "props": [
+  "C16"
+ ],
+ "level": "B(0)",
+ "tier": "wip",
+ "harness": "h_rb_get_range",
+ "defines": [
+  "EXT2_CUSTOM_MEMORY_ROUTINES",
+  "RB_N=0",
+  "RB_NEW=0"
+ ],
+ "unwind": 9,
+ "unwind_reason": "x",
+ "sources": [
+  "lib/ext2fs/rbtree.c",
+  "lib/ext2fs/bitops.c"
+ ],
+ "functions": [
+  "lib/ext2fs/blkmap64_rb.c:rb_get_bmap_range"
+ ],
+ "assumes": [
+  "x"
+ ],
+ "backend": "minisat",
+ "native": true,
+ "cbmc_flags": [
+  "--object-bits",
+  "10"
+ ],
+ "unwindset": {
+  "ext2fs_rb_next.0": 1,
+  "ext2fs_rb_next.1": 1,
+  "rb_get_bmap_range.0": 1,
+  "rb_get_bmap_range.1": 16,
+  "rb_get_bmap_range.2": 2
+ }
+}
+*/
+/* VERIF-UNIT
+{
+ "name": "rb_get_bmap_range_n1",
+ "props": [
+  "C16"
+ ],
+ "level": "B(1)",
+ "tier": "wip",
+ "harness": "h_rb_get_range",
+ "defines": [
+  "EXT2_CUSTOM_MEMORY_ROUTINES",
+  "RB_N=1",
+  "RB_NEW=0"
+ ],
+ "unwind": 9,
+ "unwind_reason": "x",
+ "sources": [
+  "lib/ext2fs/rbtree.c",
+  "lib/ext2fs/bitops.c"
+ ],
+ "functions": [
+  "lib/ext2fs/blkmap64_rb.c:rb_get_bmap_range"
+ ],
+ "assumes": [
+  "x"
+ ],
+ "backend": "minisat",
+ "native": true,
+ "cbmc_flags": [
+  "--object-bits",
+  "10"
+ ],
+ "unwindset": {
+  "ext2fs_rb_next.0": 2,
+  "ext2fs_rb_next.1": 2,
+  "rb_get_bmap_range.0": 2,
+  "rb_get_bmap_range.1": 16,
+  "rb_get_bmap_range.2": 3
+ }
+}
+*/
+/* VERIF-UNIT
+{
+ "name": "rb_get_bmap_range_n2",
+ "props": [
+  "C16"
+ ],
+ "level": "B(2)",
+ "tier": "wip",
+ "harness": "h_rb_get_range",
+ "defines": [
+  "EXT2_CUSTOM_MEMORY_ROUTINES",
+  "RB_N=2",
+  "RB_NEW=0"
+ ],
+ "unwind": 9,
+ "unwind_reason": "x",
+ "sources": [
+  "lib/ext2fs/rbtree.c",
+  "lib/ext2fs/bitops.c"
+ ],
+ "functions": [
+  "lib/ext2fs/blkmap64_rb.c:rb_get_bmap_range"
+ ],
+ "assumes": [
+  "x"
+ ],
+ "backend": "minisat",
+ "native": true,
+ "cbmc_flags": [
+  "--object-bits",
+  "10"
+ ],
+ "unwindset": {
+  "ext2fs_rb_next.0": 3,
+  "ext2fs_rb_next.1": 3,
+  "rb_get_bmap_range.0": 3,
+  "rb_get_bmap_range.1": 16,
+  "rb_get_bmap_range.2": 4
+ }
+}
+*/
+/* VERIF-UNIT
+{
+ "name": "rb_get_bmap_range_n3",
+ "props": [
+  "C16"
+ ],
+ "level": "B(3)",
+ "tier": "wip",
+ "harness": "h_rb_get_range",
+ "defines": [
+  "EXT2_CUSTOM_MEMORY_ROUTINES",
+  "RB_N=3",
+  "RB_NEW=0"
+ ],
+ "unwind": 9,
+ "unwind_reason": "x",
+ "sources": [
+  "lib/ext2fs/rbtree.c",
+  "lib/ext2fs/bitops.c"
+ ],
+ "functions": [
+  "lib/ext2fs/blkmap64_rb.c:rb_get_bmap_range"
+ ],
+ "assumes": [
+  "x"
+ ],
+ "backend": "minisat",
+ "native": true,
+ "cbmc_flags": [
+  "--object-bits",
+  "10"
+ ],
+ "unwindset": {
+  "ext2fs_rb_next.0": 3,
+  "ext2fs_rb_next.1": 3,
+  "rb_get_bmap_range.0": 3,
+  "rb_get_bmap_range.1": 16,
+  "rb_get_bmap_range.2": 5
+ }
+}
+*/
+/* VERIF-UNIT
+{
+ "name": "rb_get_bmap_range_n4",
+ "props": [
+  "C16"
+ ],
+ "level": "B(4)",
+ "tier": "wip",
+ "harness": "h_rb_get_range",
+ "defines": [
+  "EXT2_CUSTOM_MEMORY_ROUTINES",
+  "RB_N=4",
+  "RB_NEW=0"
+ ],
+ "unwind": 9,
+ "unwind_reason": "x",
+ "sources": [
+  "lib/ext2fs/rbtree.c",
+  "lib/ext2fs/bitops.c"
+ ],
+ "functions": [
+  "lib/ext2fs/blkmap64_rb.c:rb_get_bmap_range"
+ ],
+ "assumes": [
+  "x"
+ ],
+ "backend": "minisat",
+ "native": true,
+ "cbmc_flags": [
+  "--object-bits",
+  "10"
+ ],
+ "unwindset": {
+  "ext2fs_rb_next.0": 4,
+  "ext2fs_rb_next.1": 4,
+  "rb_get_bmap_range.0": 4,
+  "rb_get_bmap_range.1": 16,
+  "rb_get_bmap_range.2": 6
  }
 }
 */
